@@ -175,7 +175,9 @@ func (p *parser) parseBool(n *yaml.Node) *Bool {
 		return nil
 	}
 
-	if n.Tag == "!!str" {
+	isLit := n.Value == "true" || n.Value == "True" || n.Value == "TRUE" || n.Value == "false" || n.Value == "False" || n.Value == "FALSE"
+	if n.Tag == "!!str" || !isLit {
+		// The value may be tagged as !!bool explicitly without being a boolean literal (e.g. !!bool ${{ ... }})
 		e := p.parseExpression(n, "boolean literal \"true\" or \"false\"")
 		return &Bool{
 			Expression: e,
